@@ -1,5 +1,228 @@
-(* C14 -- placeholder while the models are validated *)
-From Httoop Require Import Model.Codecs.
-Theorem C14_placeholder : DASH2 = DASH2.
-Proof. exact eq_refl. Qed.
-Print Assumptions C14_placeholder.
+(* C14 -- Content codings and media-type codecs are lossless.
+   Only final statements here, each closed by [exact] and followed by Print Assumptions.
+   Variants (Lib/Variant.v): AsFound = the tree as pinned, Repaired = after the one-idea repairs
+   D12 (Body.decompress octet-transparent), D50 (deflate decoder reads every stream), D51 / D52 (part / message
+   without header fields).  The T1 probes in Gen/CodecsT.v say which variant the working tree is. *)
+From Httoop Require Import Lib.Bytes Lib.Split Lib.Variant Gen.CodecsT Gen.PercentT Model.Headers Model.Percent Model.Codecs
+  Proofs.CodecsSplit Proofs.CodecsHdr Proofs.CodecsMp Proofs.CodecsBody Proofs.Form.
+
+(* ================================================================== gzip / deflate through the body object *)
+(* CPython callees: gz/gunz = gzip.GzipFile write/read, zc = zlib.compress, zd1 = zlib.decompress,
+   zst = zlib.decompressobj().decompress (output, unused_data); cs_enc = str.encode(body charset). *)
+
+(* every octet string, both codings; vd = AsFound needs zlib.decompress(zlib.compress x) = x,
+   vd = Repaired needs decompressobj to return (x, rest) on compress(x) ++ rest and compress(x) to be non-empty *)
+Theorem C14_body_coding : forall gz gunz zc zd1 zst cs_enc vd c x,
+  ((forall x, gunz (gz x) = Some x) /\
+   match vd with
+   | AsFound => forall x, zd1 (zc x) = Some x
+   | Repaired => (forall x r, zst (zc x ++ r) = Some (x, r)) /\ (forall x, zc x <> [])
+   end) ->
+  body_decompress gunz zd1 zst cs_enc Repaired vd (Some c) (body_compress gz zc (Some c) x) = COk x.
+Proof. exact body_coding_roundtrip. Qed.
+Print Assumptions C14_body_coding.
+
+(* before the D12 repair: only content Codec.decode(data, None) can decode (default_decodable: the T1 class, ASCII)
+   in a body whose charset leaves that text alone *)
+Theorem C14_body_coding_asfound_partial : forall gz gunz zc zd1 zst cs_enc vd c x,
+  callees_ok gz gunz zc zd1 zst vd -> default_decodable x = true -> cs_enc x = x ->
+  body_decompress gunz zd1 zst cs_enc AsFound vd (Some c) (body_compress gz zc (Some c) x) = COk x.
+Proof. exact body_coding_roundtrip_asfound. Qed.
+Print Assumptions C14_body_coding_asfound_partial.
+
+(* D12: before the repair EVERY body with an octet outside that class ends in UnicodeDecodeError, whatever zlib/gzip do *)
+Theorem C14_binary_fails_asfound : forall gz gunz zc zd1 zst cs_enc vd c x,
+  callees_ok gz gunz zc zd1 zst vd -> default_decodable x = false ->
+  body_decompress gunz zd1 zst cs_enc AsFound vd (Some c) (body_compress gz zc (Some c) x) = CUnicodeError.
+Proof. exact body_coding_binary_fails. Qed.
+Print Assumptions C14_binary_fails_asfound.
+(* D53: ASCII content of a body declared UTF-16 comes back re-encoded *)
+Theorem C14_charset_refuted : exists cs x, default_decodable x = true /\
+  forall gz gunz zc zd1 zst vd c, callees_ok gz gunz zc zd1 zst vd ->
+  body_decompress gunz zd1 zst (cs_apply cs) AsFound vd (Some c) (body_compress gz zc (Some c) x) <> COk x.
+Proof. exact body_coding_charset_refuted. Qed.
+Print Assumptions C14_charset_refuted.
+
+Example C14_binary_fails_nonvacuous : default_decodable [x80] = false /\ default_decodable [x61; x0a; x7f] = true.
+Proof. vm_compute. split; reflexivity. Qed.
+
+(* the callee hypotheses used above and below are jointly satisfiable *)
+Example C14_callees_satisfiable : exists gz gunz zc zd1 zst,
+  callees_ok gz gunz zc zd1 zst Repaired /\ callees_ok gz gunz zc zd1 zst AsFound /\ gzip_members gz gunz /\
+  zlib_first_stream zc zd1 /\ zlib_empty_error zd1.
+Proof. exact callees_satisfiable. Qed.
+
+(* ================================================================== ... and through the wire *)
+(* the composer applies the coding to every piece of at most BODY_MAX_CHUNK octets (Body.__iter__); the parser
+   hands the concatenation to Body.decompress.  Pieces: *)
+Theorem C14_pieces_concat : forall d, concat_bytes (pieces BODY_MAX_CHUNK d) = d.
+Proof. exact (fun d => pieces_concat BODY_MAX_CHUNK d max_chunk_pos). Qed.
+Print Assumptions C14_pieces_concat.
+Theorem C14_pieces_bounds : forall d, Forall (fun p => p <> [] /\ (length p <= BODY_MAX_CHUNK)%nat) (pieces BODY_MAX_CHUNK d).
+Proof. exact (fun d => pieces_bounds BODY_MAX_CHUNK d max_chunk_pos). Qed.
+Print Assumptions C14_pieces_bounds.
+
+(* every octet string of every length.  gzip: GzipFile.read returns the concatenation of all members;
+   deflate (repaired decoder): decompressobj yields (x, rest) on compress(x) ++ rest *)
+Theorem C14_wire_coding : forall gz gunz zc zd1 zst cs_enc vd c x,
+  match c with
+  | Gzip => forall xs, gunz (concat_bytes (map gz xs)) = Some (concat_bytes xs)
+  | Deflate => match vd with
+               | Repaired => (forall x r, zst (zc x ++ r) = Some (x, r)) /\ (forall x, zc x <> [])
+               | AsFound => False
+               end
+  end ->
+  wire_roundtrip gz gunz zc zd1 zst cs_enc Repaired vd c x = COk x.
+Proof. exact wire_coding_roundtrip. Qed.
+Print Assumptions C14_wire_coding.
+
+Theorem C14_wire_coding_asfound_partial : forall gz gunz zc zd1 zst cs_enc vd c x,
+  wire_callees_ok gz gunz zc zst vd c -> default_decodable x = true -> cs_enc x = x ->
+  wire_roundtrip gz gunz zc zd1 zst cs_enc AsFound vd c x = COk x.
+Proof. exact wire_coding_roundtrip_asfound. Qed.
+Print Assumptions C14_wire_coding_asfound_partial.
+
+(* D50 (pinned deflate decoder = zlib.decompress, which stops after the first stream): the first piece only *)
+Theorem C14_wire_deflate_asfound_first_piece : forall gz gunz zc zd1 zst cs_enc vt x,
+  (forall x r, zd1 (zc x ++ r) = Some x) -> x <> [] ->
+  wire_roundtrip gz gunz zc zd1 zst cs_enc vt AsFound Deflate x =
+  match vt with
+  | AsFound => if default_decodable (firstn BODY_MAX_CHUNK x) then COk (body_set_text cs_enc (firstn BODY_MAX_CHUNK x)) else CUnicodeError
+  | Repaired => COk (firstn BODY_MAX_CHUNK x)
+  end.
+Proof. exact wire_deflate_asfound_first_piece. Qed.
+Print Assumptions C14_wire_deflate_asfound_first_piece.
+Theorem C14_wire_deflate_asfound_refuted : forall gz gunz zc zd1 zst cs_enc x,
+  (forall x r, zd1 (zc x ++ r) = Some x) -> (BODY_MAX_CHUNK < length x)%nat ->
+  wire_roundtrip gz gunz zc zd1 zst cs_enc Repaired AsFound Deflate x <> COk x.
+Proof. exact wire_deflate_asfound_truncates. Qed.
+Print Assumptions C14_wire_deflate_asfound_refuted.
+Theorem C14_wire_deflate_asfound_empty_refuted : forall gz gunz zc zd1 zst cs_enc vt,
+  zd1 [] = None -> wire_roundtrip gz gunz zc zd1 zst cs_enc vt AsFound Deflate [] = CDecodeError.
+Proof. exact wire_deflate_asfound_empty. Qed.
+Print Assumptions C14_wire_deflate_asfound_empty_refuted.
+
+(* ================================================================== multipart (httoop's own framing) *)
+(* general form: bytes(part.headers) is a callee; it is acceptable (hb_ok) when Headers.parse reads it back as h.
+   part_sep_ok / close_ok are the PRECISE conditions "the delimiter first occurs where the encoder put it"
+   (C14_first_occurrence_iff below): they include occurrences straddling the part / delimiter seams. *)
+Theorem C14_multipart_general : forall v dct bd (ps : list (bytes * hdrs * bytes)),
+  close_ok bd = true ->
+  forallb (fun p => hb_ok v (fst (fst p)) (snd (fst p)) && part_sep_ok bd (fst (fst p), snd p)) ps = true ->
+  mp_decode v dct bd (mp_encode bd (map (fun p => (fst (fst p), snd p)) ps))
+  = MpOk (map (fun p => (with_ct dct (snd (fst p)), snd p)) ps).
+Proof. exact multipart_general. Qed.
+Print Assumptions C14_multipart_general.
+
+Theorem C14_first_occurrence_iff : forall pat X R, pat <> [] ->
+  (cut pat (X ++ pat ++ R) = Some (X, R) <-> no_early pat X = true).
+Proof. exact (fun pat X R Hp => conj (cut_first_conv pat X R Hp) (cut_first pat X R Hp)). Qed.
+Print Assumptions C14_first_occurrence_iff.
+
+(* concrete form: header sets composed by Headers.compose (fields composed as one line), for EVERY list of parts,
+   every binary content, every boundary without CR / LF:
+     part_ok bd p = well-formed header set, delimiter "--"bd neither in the composed header block nor in the content.
+   No straddle condition is left: a boundary without CR / LF cannot straddle a seam, every seam being a CRLF.
+   The decoded part carries its own fields (in composed order) plus the default Content-Type when it had none. *)
+Theorem C14_multipart : forall dct bd (ps : list (hdrs * bytes)),
+  bd_clean bd = true -> forallb (part_ok bd) ps = true ->
+  mp_decode Repaired dct bd (mp_encode bd (map enc_part ps)) = MpOk (map (dec_part dct) ps).
+Proof. exact multipart_roundtrip. Qed.
+Print Assumptions C14_multipart.
+Example C14_multipart_nonvacuous :
+  bd_clean (X "78797a") = true /\
+  forallb (part_ok (X "78797a"))
+    [ ([(K_CT, X "746578742f706c61696e"); (X "582d41", X "31")], X "00ff0d0a2d2d78790d0a");   (* binary content with CRLF and "--xy" *)
+      ([], X "2d2d") ] = true.
+Proof. vm_compute. split; reflexivity. Qed.
+
+(* VALID_BOUNDARY (strict reading) implies the boundary condition *)
+Theorem C14_valid_boundary_clean : forall bd, boundary_strict bd = true -> bd_clean bd = true.
+Proof. exact boundary_strict_clean. Qed.
+Print Assumptions C14_valid_boundary_clean.
+
+(* own header fields are kept *)
+Theorem C14_multipart_own_headers : forall dct h k, k <> K_CT -> hget k (with_ct dct h) = hget k h.
+Proof. exact with_ct_keeps. Qed.
+Print Assumptions C14_multipart_own_headers.
+Theorem C14_multipart_own_content_type : forall dct h, hmem K_CT h = true -> with_ct dct h = h.
+Proof. exact with_ct_present. Qed.
+Print Assumptions C14_multipart_own_content_type.
+Theorem C14_hsort_permutation : forall h, Permutation.Permutation (hsort h) h.
+Proof. exact hsort_perm. Qed.
+Print Assumptions C14_hsort_permutation.
+
+(* Headers.parse inverts Headers.compose on well-formed one-line fields (the part C08 will generalise) *)
+Theorem C14_headers_block_roundtrip : forall l, l <> [] -> hdrs_wf l = true -> hparse [] (hblock_of l) = Some l.
+Proof. exact hparse_hblock. Qed.
+Print Assumptions C14_headers_block_roundtrip.
+Example C14_hdrs_wf_nonvacuous :
+  hdrs_wf [(K_CT, X "746578742f706c61696e3b20636861727365743d5554462d38"); (X "436f6e74656e742d446973706f736974696f6e", X "666f726d2d646174613b206e616d653d22666f6f22")] = true.
+Proof. vm_compute. reflexivity. Qed.
+
+(* pinned tree (D51): true when every part has at least one header field; refuted otherwise *)
+Theorem C14_multipart_asfound_partial : forall dct bd ps,
+  bd_clean bd = true -> forallb (part_ok bd) ps = true -> forallb has_fields ps = true ->
+  mp_decode AsFound dct bd (mp_encode bd (map enc_part ps)) = MpOk (map (dec_part dct) ps).
+Proof. exact multipart_roundtrip_asfound. Qed.
+Print Assumptions C14_multipart_asfound_partial.
+Theorem C14_multipart_asfound_refuted : exists dct bd ps, bd_clean bd = true /\ forallb (part_ok bd) ps = true /\
+  mp_decode AsFound dct bd (mp_encode bd (map enc_part ps)) <> MpOk (map (dec_part dct) ps).
+Proof. exact multipart_asfound_refuted. Qed.
+Print Assumptions C14_multipart_asfound_refuted.
+(* the side condition of the property is needed *)
+Theorem C14_multipart_delimiter_in_content_refuted : exists v dct bd ps, bd_clean bd = true /\
+  forallb (fun p => hdrs_wf (fst p)) ps = true /\
+  mp_decode v dct bd (mp_encode bd (map enc_part ps)) <> MpOk (map (dec_part dct) ps).
+Proof. exact multipart_delimiter_in_content_refuted. Qed.
+Print Assumptions C14_multipart_delimiter_in_content_refuted.
+
+(* ================================================================== message/http *)
+(* slp = the start-line parsers (Request.parse, else Response.parse); line = the composed start line without CRLF.
+   Arbitrary binary body. *)
+Theorem C14_http : forall (SL : Type) (slp : bytes -> option SL) line m h body,
+  cut CRLF line = None -> slp line = Some m -> hdrs_wf h = true ->
+  http_decode slp Repaired (http_encode (line ++ CRLF) (hcompose_sorted (hsort h)) body) = HtOk m (hsort h) body.
+Proof. exact (fun SL slp line m h body Hl Hs Hw => @http_roundtrip_v SL slp Repaired line m h body Hl Hs Hw eq_refl). Qed.
+Print Assumptions C14_http.
+Theorem C14_http_general : forall (SL : Type) (slp : bytes -> option SL) v line m blk h body,
+  cut CRLF line = None -> slp line = Some m -> hparse [] blk = Some h -> no_early CRLF2 blk = true ->
+  http_decode slp v (http_encode (line ++ CRLF) (blk ++ CRLF2) body) = HtOk m h body.
+Proof. exact @http_roundtrip_general. Qed.
+Print Assumptions C14_http_general.
+(* pinned tree (D52): at least one header field *)
+Theorem C14_http_asfound_partial : forall (SL : Type) (slp : bytes -> option SL) line m h body,
+  cut CRLF line = None -> slp line = Some m -> hdrs_wf h = true -> negb (is_nil h) = true ->
+  http_decode slp AsFound (http_encode (line ++ CRLF) (hcompose_sorted (hsort h)) body) = HtOk m (hsort h) body.
+Proof. exact (fun SL slp line m h body Hl Hs Hw Hn => @http_roundtrip_v SL slp AsFound line m h body Hl Hs Hw Hn). Qed.
+Print Assumptions C14_http_asfound_partial.
+Theorem C14_http_asfound_refuted : exists (line body : bytes), cut CRLF line = None /\
+  http_decode (fun _ => Some tt) AsFound (http_encode (line ++ CRLF) (hcompose_sorted (hsort [])) body) <> HtOk tt [] body.
+Proof. exact http_asfound_refuted. Qed.
+Print Assumptions C14_http_asfound_refuted.
+
+(* ================================================================== json, text/plain, form (thin wrappers) *)
+(* enc/dec = str.encode / bytes.decode per charset, dumps/loads = json: Section parameters.  Hypotheses:
+   a charset decodes what it encoded; json.dumps output (ASCII) encoded as UTF-8 decodes as ASCII; loads (dumps v) = v *)
+Theorem C14_plain_text : forall (text : Type) enc dec cs (t : text) b,
+  (forall cs t b, enc cs t = Some b -> dec cs b = Some t) ->
+  plain_encode enc cs t = Some b -> plain_decode dec cs b = Some t.
+Proof. exact @plain_roundtrip. Qed.
+Print Assumptions C14_plain_text.
+Theorem C14_json : forall (text J : Type) enc dec (dumps : J -> text) loads cs v b,
+  (forall cs t b, enc cs t = Some b -> dec cs b = Some t) ->
+  (forall v b, enc UTF8 (dumps v) = Some b -> dec ASCII b = Some (dumps v)) ->
+  (forall v, loads (dumps v) = Some v) ->
+  json_encode enc dumps cs v = Some b -> json_decode dec loads cs b = JOk v.
+Proof. exact @json_roundtrip. Qed.
+Print Assumptions C14_json.
+(* form-urlencoded: the proved C13 theorem (two-digit escapes); the pinned one-digit escapes are refuted (D1, known) *)
+Theorem C14_form : forall (text : Type) (enc : text -> bytes) (dec : bytes -> option text),
+  (forall t, dec (enc t) = Some t) -> forall ps, Forall (fun p => enc (fst p) <> []) ps ->
+  form_decode_text dec (form_encode_text enc Repaired FORM_UNQUOTED ps) = Some ps.
+Proof. exact (fun text enc dec H ps Hp => @form_roundtrip_text text enc dec H FORM_UNQUOTED ps form_unquoted_ok Hp). Qed.
+Print Assumptions C14_form.
+Theorem C14_form_asfound_refuted :
+  exists ps, Forall (fun p => fst p <> []) ps /\ form_decode (form_encode AsFound FORM_UNQUOTED ps) <> ps.
+Proof. exact form_roundtrip_asfound_refuted. Qed.
+Print Assumptions C14_form_asfound_refuted.
